@@ -7,3 +7,8 @@ open SamVerif.Differ
 #print axioms compute_no_panic
 #print axioms script_positions_sorted
 #print axioms edit_ranges_ordered
+#print axioms script_positions_in_bounds
+#print axioms edit_ranges_inside
+#print axioms diff_append_one
+#print axioms longestTrace_total
+#print axioms diff_total_correct
